@@ -286,3 +286,6 @@ func c06SecondSession() {
 	verifCoverIf("first-zero-second-not", verifAnd(r1 == 0, r2 != 0))
 	e.p.stop()
 }
+
+// C05 on the two-session scenario (hold times independent, incl. 0, with a WriteUpdate in the second session): no panic, nothing wedges
+func Verif_C05_Arith_second_session_any_hold_times() { c06SecondSession() }
